@@ -9,6 +9,8 @@
 (*   Return      store the value, count+1, age, cleanup_cache, pop           *)
 (*   Raise       an exception unwinds the whole evaluation stack             *)
 (*   Freeze      freeze_data(): everything cached gets importance 0          *)
+(*   Load        load_data(sim_data, it) between requests: the entries of    *)
+(*               sim_data are (re)assigned, then freeze_data()               *)
 (* cleanup_cache is part of Return (it runs before __getitem__ returns):     *)
 (* the set S it removes is chosen by the policy layer:                       *)
 (*   Policy = "any"  : any set of unfrozen entries older than one            *)
@@ -35,7 +37,8 @@ CONSTANTS Keys,         \* storable keys (description keys)
           Policy,       \* "any" | "code"
           MaxStack,     \* bound on the evaluation stack (re-entrancy is flagged before)
           EmitCov,      \* BOOLEAN: print the shortest history reaching each (key, leaf)
-          AllowFreeze   \* BOOLEAN: the user may call freeze_data() between requests
+          AllowFreeze,  \* BOOLEAN: the user may call freeze_data() between requests
+          LoadKeys      \* keys of the dictionary the user may hand to load_data() between requests ({}: load_data is not called)
 
 VARIABLES data,     \* set of cached keys                     (keys of rel.data)
           age,      \* last_accessed : partial function Keys -> Nat
@@ -102,6 +105,20 @@ Freeze ==
     /\ frozen' = frozen \cup data
     /\ hist' = Append(hist, "!freeze")
     /\ UNCHANGED <<data, age, count, stack, nreq, obj, dirty, handed, status, nset>>
+
+(* load_data(sim_data, it) between requests (core.py:304-318): every key of sim_data is assigned a new object, then    *)
+(* freeze_data() marks everything that is cached - entries that are not in sim_data stay what they were                *)
+Loads == Cardinality({i \in DOMAIN hist : hist[i] = "!load"})
+Load ==
+    /\ LoadKeys # {} /\ stack = << >> /\ nreq < MaxRequests /\ Loads < 1
+    /\ LET new(k) == [k |-> k, c |-> 0 - (nset + 1)] IN
+       /\ data' = data \cup LoadKeys
+       /\ obj' = [y \in data \cup LoadKeys |-> IF y \in LoadKeys THEN new(y) ELSE obj[y]]
+       /\ handed' = handed \cup {new(k) : k \in LoadKeys}
+    /\ nset' = nset + 1
+    /\ frozen' = frozen \cup data \cup LoadKeys
+    /\ hist' = Append(hist, "!load")
+    /\ UNCHANGED <<age, count, stack, nreq, dirty, status>>
 
 -----------------------------------------------------------------------------
 (* clean-up: which sets may be removed when `k` has just been stored *)
@@ -184,7 +201,7 @@ Return == /\ stack # << >> /\ Node(Top).op = "end"
           /\ \E S \in Choices(Touch(age, Top.key, count + 1), count + 1) : ReturnWith(S, S)
 
 Step == StepRead \/ StepDirect \/ StepTest
-Next == (\E k \in Requests : Request(k)) \/ Freeze \/ Step \/ Return \/ ReturnHelper \/ Raise
+Next == (\E k \in Requests : Request(k)) \/ Freeze \/ Load \/ Step \/ Return \/ ReturnHelper \/ Raise
 Spec == Init /\ [][Next]_vars
 FairSpec == Spec /\ WF_vars(Step \/ Return \/ ReturnHelper \/ Raise)
 
@@ -198,6 +215,10 @@ OnlyWholeUnfrozenEntries ==       \* action property: what a step removes
         /\ \A x \in data \ data' : x \notin DOMAIN age'
         /\ \A x \in (DOMAIN age) \ (DOMAIN age') : x \notin data'
         /\ \A x \in data \ data' : x \in DOMAIN age /\ count' - age[x] > 1 ]_vars
+(* what is frozen and is not in the dictionary handed to load_data survives the call untouched *)
+LoadKeepsFrozen == [][(hist' # hist /\ hist'[Len(hist')] = "!load") =>
+                          /\ frozen \subseteq data' /\ frozen \subseteq frozen'
+                          /\ \A k \in (frozen \cap data) \ LoadKeys : obj'[k] = obj[k]]_vars
 CountMonotone == [][count' >= count /\ (count' > count => Cardinality(data' \ data) <= 1)]_vars
 PolicyRefinement ==    \* the code's policy is one of the choices of the safety layer
     stack # << >> => \A c \in {count + 1} :
